@@ -634,3 +634,435 @@ Proof.
     generalize (ldones (mrun pp pj fl evs)). intros l. induction l as [|x l IH]; simpl; auto.
     rewrite filter_app, <- IH. simpl. destruct (is_cancelled x); simpl; rewrite ?app_nil_r; reflexivity.
 Qed.
+
+(* ---- nothing is lost: every running execution is subscribed for its current request, which is in flight ---- *)
+Definition waits (m : mgr) (e id : nat) : Prop :=
+  exists x, nth_error (execs m) e = Some x /\ est x = Running /\ ewait x = Some id.
+Definition live_ids (m : mgr) : list nat := map wid (filter wlive (wire m)).
+
+Lemma waiting_on_iff m e id : waiting_on m e id = true <-> waits m e id.
+Proof.
+  unfold waiting_on, waits. destruct (nth_error (execs m) e) as [x|]; [|split; [discriminate|intros [? [? _]]; discriminate]].
+  rewrite andb_true_iff. split.
+  - intros [H1 H2]. exists x. repeat split; auto.
+    + destruct (est x); auto; discriminate.
+    + destruct (ewait x) as [i|]; simpl in H2; [|discriminate]. apply Nat.eqb_eq in H2. congruence.
+  - intros [y [Hy [Hr Hw]]]. inversion Hy; subst. rewrite Hr, Hw. simpl. split; auto. apply Nat.eqb_refl.
+Qed.
+
+Lemma waits_running m e id : waits m e id -> running m e.
+Proof. intros [x [H1 [H2 _]]]. exists x; auto. Qed.
+
+Lemma waits_fun m e id id' : waits m e id -> waits m e id' -> id = id'.
+Proof. intros [x [H1 [_ H3]]] [y [H1' [_ H3']]]. rewrite H1 in H1'. inversion H1'; subst. congruence. Qed.
+
+(* ws: subscribers of a stream that just went away and whose wake-up is still to be processed (empty between events) *)
+Record Wg (ws : list (nat * nat)) (m : mgr) : Prop := mkWg {
+  w_nodup : NoDup (map fst (subs m));
+  w_lt : forall id e, In (id, e) (subs m) -> id < next_id m;
+  w_live : forall e id, waits m e id ->
+           (In (id, e) (subs m) /\ (In id (live_ids m) \/ In id (map fst (pending m)))) \/ In (id, e) ws;
+  w_run : forall e, running m e -> exists id, waits m e id }.
+
+(* the same, except that nothing is claimed about execution e (which is about to act) *)
+Record Wgx (ws : list (nat * nat)) (e : nat) (m : mgr) : Prop := mkWgx {
+  x_nodup : NoDup (map fst (subs m));
+  x_lt : forall id e', In (id, e') (subs m) -> id < next_id m;
+  x_live : forall e' id, e' <> e -> waits m e' id ->
+           (In (id, e') (subs m) /\ (In id (live_ids m) \/ In id (map fst (pending m)))) \/ In (id, e') ws;
+  x_run : forall e', e' <> e -> running m e' -> exists id, waits m e' id }.
+
+Definition W (m : mgr) : Prop := Wg [] m.
+
+Lemma Wg_Wgx ws e m : Wg ws m -> Wgx ws e m.
+Proof. intros [H1 H2 H3 H4]. constructor; auto. Qed.
+
+Lemma waits_update_other m e e' f id : e' <> e ->
+  (exists x, nth_error (update e f (execs m)) e' = Some x /\ est x = Running /\ ewait x = Some id) -> waits m e' id.
+Proof.
+  intros Hne [x [Hx H]]. rewrite nth_error_update in Hx.
+  assert (E : (e =? e') = false) by (apply Nat.eqb_neq; auto). rewrite E in Hx. exists x; auto.
+Qed.
+
+Lemma running_update_other' m e e' f : e' <> e ->
+  (exists x, nth_error (update e f (execs m)) e' = Some x /\ est x = Running) -> running m e'.
+Proof.
+  intros Hne [x [Hx H]]. rewrite nth_error_update in Hx.
+  assert (E : (e =? e') = false) by (apply Nat.eqb_neq; auto). rewrite E in Hx. exists x; auto.
+Qed.
+
+Lemma Wg_send ws e r m : Wgx ws e m -> running m e -> Wg ws (send e r m).
+Proof.
+  intros [H1 H2 H3 H4] [x [Hx Hr]]. unfold send. rewrite Hx.
+  constructor; unfold waits, running, live_ids; msimpl.
+  - rewrite map_app. simpl. apply NoDup_rev in H1. rewrite <- (rev_involutive (map fst (subs m) ++ [next_id m])).
+    apply NoDup_rev. rewrite rev_app_distr. simpl. constructor.
+    + rewrite <- in_rev. intros Hin. apply in_map_iff in Hin. destruct Hin as [[i e'] [E Hin]]. simpl in E. subst i.
+      apply H2 in Hin. lia.
+    + exact H1.
+  - intros id e' Hin. apply in_app_iff in Hin. destruct Hin as [Hin|[Hin|[]]].
+    + apply H2 in Hin. lia.
+    + inversion Hin. lia.
+  - intros e' id Hw. destruct (Nat.eq_dec e' e) as [->|Hne].
+    + destruct Hw as [y [Hy [_ Hw]]]. rewrite nth_error_update, Nat.eqb_refl, Hx in Hy. simpl in Hy.
+      inversion Hy; subst y. simpl in Hw. inversion Hw; subst id. left.
+      split; [apply in_app_iff; right; left; auto|]. left. rewrite filter_app, map_app. apply in_app_iff. right. simpl. auto.
+    + apply waits_update_other in Hw; auto. destruct (H3 e' id Hne Hw) as [[A B]|C]; auto. left.
+      split; [apply in_app_iff; auto|]. destruct B as [B|B]; auto. left. rewrite filter_app, map_app. apply in_app_iff. auto.
+  - intros e' Hrun. destruct (Nat.eq_dec e' e) as [->|Hne].
+    + exists (next_id m). rewrite nth_error_update, Nat.eqb_refl, Hx. simpl. eexists; repeat split; auto.
+    + apply running_update_other' in Hrun; auto. destruct (H4 e' Hne Hrun) as [id [y [Hy Hw]]].
+      exists id, y. rewrite nth_error_update. assert (E : (e =? e') = false) by (apply Nat.eqb_neq; auto). rewrite E. auto.
+Qed.
+
+Lemma Wg_finish ws e o m : Wgx ws e m -> Wg ws (finish e o m).
+Proof.
+  intros [H1 H2 H3 H4]. constructor; unfold waits, running, live_ids; msimpl; auto.
+  - intros e' id Hw. destruct (Nat.eq_dec e' e) as [->|Hne].
+    + destruct Hw as [y [Hy [Hr _]]]. rewrite nth_error_update, Nat.eqb_refl in Hy.
+      destruct (nth_error (execs m) e); simpl in Hy; inversion Hy; subst y. discriminate.
+    + apply (H3 e' id Hne). eapply waits_update_other; eauto.
+  - intros e' Hrun. destruct (Nat.eq_dec e' e) as [->|Hne].
+    + destruct Hrun as [y [Hy Hr]]. rewrite nth_error_update, Nat.eqb_refl in Hy.
+      destruct (nth_error (execs m) e); simpl in Hy; inversion Hy; subst y. discriminate.
+    + apply running_update_other' in Hrun; auto. destruct (H4 e' Hne Hrun) as [id [y [Hy Hw]]].
+      exists id, y. rewrite nth_error_update. assert (E : (e =? e') = false) by (apply Nat.eqb_neq; auto). rewrite E. auto.
+Qed.
+
+Lemma Wg_cancel ws e m : Wgx ws e m -> Wg ws (cancel_exec e m).
+Proof.
+  intros H. apply Wg_finish with (o := OCancelled) in H. destruct H as [H1 H2 H3 H4]. unfold cancel_exec.
+  constructor; auto.
+Qed.
+
+(* ---- list facts ---- *)
+Lemma lookup_none_notin : forall id l, lookup id l = None -> ~ In id (map fst l).
+Proof.
+  induction l as [|[i e] l IH]; simpl; intros H; [tauto|].
+  destruct (i =? id) eqn:E; [discriminate|]. apply Nat.eqb_neq in E. intros [H1|H1]; [congruence|]. apply IH; auto.
+Qed.
+
+Lemma lookup_nodup : forall id e l, NoDup (map fst l) -> In (id, e) l -> lookup id l = Some e.
+Proof.
+  induction l as [|[i e'] l IH]; simpl; intros Hn Hin; [contradiction|].
+  inversion Hn as [|? ? Hx Hn']; subst. destruct Hin as [Hin|Hin].
+  - inversion Hin; subst. rewrite Nat.eqb_refl. reflexivity.
+  - destruct (i =? id) eqn:E; auto. apply Nat.eqb_eq in E. subst i. exfalso. apply Hx.
+    apply in_map_iff. exists (id, e). auto.
+Qed.
+
+Lemma remove_sub_keep : forall id l i e, In (i, e) l -> i <> id -> In (i, e) (remove_sub id l).
+Proof.
+  induction l as [|[j e'] l IH]; simpl; intros i e Hin Hne; auto.
+  destruct (j =? id) eqn:E.
+  - apply Nat.eqb_eq in E. destruct Hin as [Hin|Hin]; auto. inversion Hin; subst. congruence.
+  - destruct Hin as [Hin|Hin]; [left; auto|right; auto].
+Qed.
+
+Lemma remove_sub_nodup : forall id l, NoDup (map fst l) -> NoDup (map fst (remove_sub id l)).
+Proof.
+  induction l as [|[j e'] l IH]; simpl; intros Hn; auto. inversion Hn as [|? ? Hx Hn']; subst.
+  destruct (j =? id); auto. simpl. constructor; auto.
+  intros Hin. apply Hx. apply in_map_iff in Hin. destruct Hin as [[i e] [E Hin]]. simpl in E. subst i.
+  apply in_map_iff. exists (j, e). split; auto. eapply remove_sub_in; eauto.
+Qed.
+
+Lemma take_nth_split {A} : forall k (l : list A) x rest, take_nth k l = Some (x, rest) ->
+  forall y, In y l -> y = x \/ In y rest.
+Proof.
+  induction k as [|k IH]; intros [|a l] x rest H y Hy; simpl in H; try discriminate.
+  - inversion H; subst. destruct Hy; auto.
+  - destruct (take_nth k l) as [[z r']|] eqn:E; try discriminate. inversion H; subst.
+    destruct Hy as [<-|Hy]; [right; left; auto|]. destruct (IH _ _ _ E y Hy); auto. right; right; auto.
+Qed.
+
+Lemma Wg_frame ws m m' : execs m' = execs m -> subs m' = subs m -> next_id m' = next_id m ->
+  (forall id, In id (live_ids m) \/ In id (map fst (pending m)) -> In id (live_ids m') \/ In id (map fst (pending m'))) ->
+  Wg ws m -> Wg ws m'.
+Proof.
+  intros E1 E2 E3 E4 [H1 H2 H3 H4]. constructor; unfold waits, running in *; rewrite ?E1, ?E2, ?E3; auto.
+  intros e id Hw. destruct (H3 e id Hw) as [[A B]|C]; auto.
+Qed.
+
+Lemma live_after_take k w rest (m : mgr) : take_nth k (wire m) = Some (w, rest) ->
+  forall id, In id (live_ids m) -> (wlive w = true /\ id = wid w) \/ In id (map wid (filter wlive rest)).
+Proof.
+  intros E id Hin. unfold live_ids in Hin. apply in_map_iff in Hin. destruct Hin as [y [Ey Hy]].
+  apply filter_In in Hy. destruct Hy as [Hy Hl].
+  destruct (take_nth_split _ _ _ _ E y Hy) as [->|Hr]; [left; auto|].
+  right. apply in_map_iff. exists y. split; auto. apply filter_In; auto.
+Qed.
+
+Lemma pending_after_take k id p rest (m : mgr) : take_nth k (pending m) = Some ((id, p), rest) ->
+  forall i, In i (map fst (pending m)) -> i <> id -> In i (map fst rest).
+Proof.
+  intros E i Hin Hne. apply in_map_iff in Hin. destruct Hin as [[i' p'] [Ei Hy]]. simpl in Ei. subst i'.
+  destruct (take_nth_split _ _ _ _ E _ Hy) as [Heq|Hr]; [inversion Heq; congruence|].
+  apply in_map_iff. exists (i, p'). auto.
+Qed.
+
+(* the k-th outstanding response is taken off and its subscriber (if any) unsubscribed *)
+Lemma W_unsub m k id p rest : W m -> take_nth k (pending m) = Some ((id, p), rest) ->
+  match lookup id (subs m) with
+  | None => W (set_pending rest m)
+  | Some e =>
+    let m2 := set_subs (remove_sub id (subs m)) (set_pending rest m) in
+    Wgx [] e m2 /\ (waiting_on m2 e id = false -> W m2)
+  end.
+Proof.
+  intros HW E. pose proof HW as [H1 H2 H3 H4].
+  assert (F : forall e' id', waits m e' id' -> id' <> id ->
+            In (id', e') (remove_sub id (subs m)) /\ (In id' (live_ids m) \/ In id' (map fst rest))).
+  { intros e' id' Hw Hne. destruct (H3 e' id' Hw) as [[A B]|[]]. split; [apply remove_sub_keep; auto|].
+    destruct B as [B|B]; auto. right. eapply pending_after_take; eauto. }
+  destruct (lookup id (subs m)) as [e|] eqn:El.
+  - assert (Hother : forall e' id', e' <> e -> waits m e' id' -> id' <> id).
+    { intros e' id' Hne Hw ->. destruct (H3 e' id Hw) as [[A _]|[]]. rewrite (lookup_nodup _ _ _ H1 A) in El. congruence. }
+    split.
+    + constructor; unfold waits, running, live_ids; msimpl; auto using remove_sub_nodup.
+      * intros i e' Hin. apply H2 with e'. eapply remove_sub_in; eauto.
+      * intros e' id' Hne Hw. left. apply F; auto. eapply Hother; eauto.
+      * intros e' _ Hr. apply H4. exact Hr.
+    + intros Hnw. constructor; unfold waits, running, live_ids; msimpl; auto using remove_sub_nodup.
+      * intros i e' Hin. apply H2 with e'. eapply remove_sub_in; eauto.
+      * intros e' id' Hw. left. apply F; auto. destruct (Nat.eq_dec e' e) as [->|Hne]; [|eapply Hother; eauto].
+        intros ->. assert (Hc : waiting_on (set_subs (remove_sub id (subs m)) (set_pending rest m)) e id = true).
+        { apply waiting_on_iff. exact Hw. } congruence.
+  - constructor; unfold waits, running, live_ids; msimpl; auto.
+    intros e' id' Hw. destruct (H3 e' id' Hw) as [[A B]|[]]. left. split; auto.
+    destruct B as [B|B]; auto. right. eapply pending_after_take; eauto.
+    intros ->. apply (lookup_none_notin _ _ El). apply in_map_iff. exists (id, e'). auto.
+Qed.
+
+Lemma W_on_payload e p m : Wgx [] e m -> running m e -> W (on_payload e p m).
+Proof.
+  intros H Hr. unfold on_payload, W. destruct p as [r|c]; [apply Wg_finish; auto|].
+  pose proof Hr as [x [Hx _]]. rewrite Hx.
+  destruct (retry c (ecur x)); [apply Wg_send|apply Wg_finish]; auto.
+Qed.
+
+(* the subscribers of a broken / stopped stream wake up one after the other *)
+Lemma Wg_wake_broken x : forall ws m, Wg ws m -> W (fold_left (wake_broken x) ws m).
+Proof.
+  induction ws as [|[id e] ws IH]; intros m H; simpl; auto. apply IH.
+  assert (Hx : Wgx ws e m).
+  { destruct H as [H1 H2 H3 H4]. constructor; auto.
+    intros e' id' Hne Hw. destruct (H3 e' id' Hw) as [A|[C|C]]; auto. inversion C; congruence. }
+  unfold wake_broken. simpl. destruct (waiting_on m e id) eqn:Hw.
+  - apply waiting_on_iff in Hw. destruct (retryable x); [apply Wg_send|apply Wg_finish]; eauto using waits_running.
+  - destruct H as [H1 H2 H3 H4]. constructor; auto.
+    intros e' id' Hw'. destruct (H3 e' id' Hw') as [A|[C|C]]; auto. inversion C; subst.
+    apply waiting_on_iff in Hw'. congruence.
+Qed.
+
+Lemma Wg_wake_stopped : forall ws m, Wg ws m -> W (fold_left wake_stopped ws m).
+Proof.
+  induction ws as [|[id e] ws IH]; intros m H; simpl; auto. apply IH.
+  assert (Hx : Wgx ws e m).
+  { destruct H as [H1 H2 H3 H4]. constructor; auto.
+    intros e' id' Hne Hw. destruct (H3 e' id' Hw) as [A|[C|C]]; auto. inversion C; congruence. }
+  unfold wake_stopped. simpl. destruct (waiting_on m e id) eqn:Hw.
+  - apply Wg_cancel; auto.
+  - destruct H as [H1 H2 H3 H4]. constructor; auto.
+    intros e' id' Hw'. destruct (H3 e' id' Hw') as [A|[C|C]]; auto. inversion C; subst.
+    apply waiting_on_iff in Hw'. congruence.
+Qed.
+
+Lemma Wg_drop m : W m -> Wg (subs m) (drop_stream m).
+Proof.
+  intros [H1 H2 H3 H4]. constructor; msimpl; auto.
+  - constructor.
+  - intros id e [].
+  - intros e id Hw. destruct (H3 e id Hw) as [[A _]|[]]. right. exact A.
+Qed.
+
+Lemma W_mstep m ev : W m -> W (mstep m ev).
+Proof.
+  intros H0. unfold mstep.
+  assert (H : W (set_clock (S (clock m)) m)) by (revert H0; apply Wg_frame; auto).
+  set (m' := set_clock (S (clock m)) m) in *. clearbody m'. clear H0.
+  destruct ev as [p|k|k c|k|k|x|i|].
+  - (* Submit *)
+    apply Wg_send.
+    + destruct H as [H1 H2 H3 H4]. constructor; unfold waits, running; msimpl; auto.
+      * intros e' id Hne [y [Hy Hw]]. apply H3. exists y. split; auto.
+        rewrite nth_error_app1 in Hy; auto.
+        assert (Hlt : e' < length (execs m' ++ [mkexec p CreateProgJob None Running])) by (apply nth_error_Some; congruence).
+        rewrite app_length in Hlt. simpl in Hlt. lia.
+      * intros e' Hne [y [Hy Hr]].
+        assert (Hlt : e' < length (execs m' ++ [mkexec p CreateProgJob None Running])) by (apply nth_error_Some; congruence).
+        rewrite app_length in Hlt. simpl in Hlt. rewrite nth_error_app1 in Hy by lia.
+        destruct (H4 e' (ex_intro _ y (conj Hy Hr))) as [id [z [Hz Hw]]].
+        exists id, z. split; auto. rewrite nth_error_app1; auto. lia.
+    + exists (mkexec p CreateProgJob None Running). msimpl. split; auto.
+      rewrite nth_error_app2, Nat.sub_diag; auto.
+  - (* Process *)
+    destruct (take_nth k (wire m')) as [[w rest]|] eqn:E; auto.
+    assert (Hgen : forall m1 p, execs m1 = execs m' -> subs m1 = subs m' -> next_id m1 = next_id m' -> wire m1 = rest ->
+              pending m1 = pending m' -> W (if wlive w then reply (wid w) p m1 else m1)).
+    { intros m1 p E1 E2 E3 E4 E5. revert H. apply Wg_frame; destruct (wlive w) eqn:El; msimpl; auto.
+      - intros id [Hin|Hin].
+        + destruct (live_after_take _ _ _ _ E id Hin) as [[_ ->]|Hr].
+          * right. rewrite map_app. apply in_app_iff. right. simpl. auto.
+          * left. unfold live_ids. msimpl. rewrite E4. exact Hr.
+        + right. rewrite E5, map_app. apply in_app_iff. auto.
+      - intros id [Hin|Hin].
+        + destruct (live_after_take _ _ _ _ E id Hin) as [[Hl _]|Hr]; [congruence|].
+          left. unfold live_ids. rewrite E4. exact Hr.
+        + right. rewrite E5. exact Hin. }
+    unfold serve_m, create_job.
+    destruct (wkind w); repeat match goal with |- context [if ?b then _ else _] =>
+      lazymatch b with wlive _ => fail | _ => destruct b end end; apply Hgen; auto.
+  - (* RejectReq *)
+    destruct (take_nth k (wire m')) as [[w rest]|] eqn:E; auto.
+    revert H. apply Wg_frame; destruct (wlive w) eqn:El; msimpl; auto.
+    + intros id [Hin|Hin].
+      * destruct (live_after_take _ _ _ _ E id Hin) as [[_ ->]|Hr].
+        -- right. rewrite map_app. apply in_app_iff. right. simpl. auto.
+        -- left. exact Hr.
+      * right. rewrite map_app. apply in_app_iff. auto.
+    + intros id [Hin|Hin]; auto.
+      destruct (live_after_take _ _ _ _ E id Hin) as [[Hl _]|Hr]; [congruence|]. left. exact Hr.
+  - (* Respond *)
+    destruct (take_nth k (pending m')) as [[[id p] rest]|] eqn:E; auto.
+    pose proof (W_unsub m' k id p rest H E) as HU. msimpl.
+    destruct (lookup id (subs m')) as [e|]; auto. destruct HU as [HX HN].
+    destruct (waiting_on _ e id) eqn:Hw; auto.
+    apply W_on_payload; auto. eapply waiting_on_running; eauto.
+  - (* RespondCancel *)
+    destruct (take_nth k (pending m')) as [[[id p] rest]|] eqn:E; auto.
+    pose proof (W_unsub m' k id p rest H E) as HU. msimpl.
+    destruct (lookup id (subs m')) as [e|]; auto. destruct HU as [HX HN].
+    destruct (waiting_on _ e id) eqn:Hw; auto. apply Wg_cancel; auto.
+  - (* Break *)
+    apply Wg_wake_broken. apply Wg_drop. exact H.
+  - (* Cancel *)
+    destruct (nth_error (execs m') i) as [y|]; auto. destruct (is_running (est y)); auto.
+    apply Wg_cancel. apply Wg_Wgx. exact H.
+  - (* Stop *)
+    apply Wg_wake_stopped. apply Wg_drop. exact H.
+Qed.
+
+Theorem W_mrun pp pj fl evs : W (mrun pp pj fl evs).
+Proof.
+  unfold mrun.
+  assert (H : W (minit pp pj fl)).
+  { constructor; simpl.
+    - constructor.
+    - intros id e [].
+    - intros e id [x [Hx _]]. simpl in Hx. destruct e; discriminate.
+    - intros e [x [Hx _]]. simpl in Hx. destruct e; discriminate. }
+  revert H. generalize (minit pp pj fl). induction evs as [|ev evs IH]; intros m H; simpl; auto using W_mstep.
+Qed.
+
+(* D5c: along every event sequence, every execution that has not finished is subscribed in the demultiplexer under the
+   message id of its current request, ids are subscribed at most once, and that request is on the wire of the current
+   stream or its response is outstanding — nothing is lost, whatever breaks, cancellations and reorderings occurred *)
+Theorem no_lost_request : forall pp pj fl evs,
+  let m := mrun pp pj fl evs in
+  NoDup (obs_subs m) /\
+  forall e, running m e ->
+    exists id, waits m e id /\ In (id, e) (subs m) /\ (In id (live_ids m) \/ In id (map fst (pending m))).
+Proof.
+  intros pp pj fl evs m. subst m. destruct (W_mrun pp pj fl evs) as [H1 H2 H3 H4]. split; auto.
+  intros e Hr. destruct (H4 e Hr) as [id Hw]. exists id. split; auto.
+  destruct (H3 e id Hw) as [[A B]|[]]. auto.
+Qed.
+
+(* ---- what a stream failure does to the executions that are waiting ---- *)
+Lemma mrun_snoc pp pj fl evs ev : mrun pp pj fl (evs ++ [ev]) = mstep (mrun pp pj fl evs) ev.
+Proof. unfold mrun. rewrite fold_left_app. reflexivity. Qed.
+
+Lemma fold_broken_fatal x : retryable x = false -> forall ws m e,
+  ((exists id, In (id, e) ws /\ waits m e id) \/
+   (exists y, nth_error (execs m) e = Some y /\ est y = Finished (ORaisedExn x))) ->
+  exists y, nth_error (execs (fold_left (wake_broken x) ws m)) e = Some y /\ est y = Finished (ORaisedExn x).
+Proof.
+  intros Hx. induction ws as [|[id0 e0] ws IH]; intros m e H; simpl.
+  - destruct H as [[id [[] _]]|H]; auto.
+  - apply IH. unfold wake_broken. simpl. rewrite Hx. destruct (waiting_on m e0 id0) eqn:Hw.
+    + apply waiting_on_iff in Hw. destruct (Nat.eq_dec e e0) as [->|Hne].
+      * right. destruct Hw as [y [Hy _]]. msimpl. rewrite nth_error_update, Nat.eqb_refl, Hy. simpl.
+        eexists; split; [reflexivity|]. reflexivity.
+      * assert (E : (e0 =? e) = false) by (apply Nat.eqb_neq; auto).
+        destruct H as [[id [Hin Hwe]]|[y [Hy He]]].
+        -- left. exists id. destruct Hin as [Hin|Hin]; [inversion Hin; congruence|]. split; auto.
+           destruct Hwe as [y [Hy Hrest]]. exists y. msimpl. rewrite nth_error_update, E. auto.
+        -- right. exists y. msimpl. rewrite nth_error_update, E. auto.
+    + destruct H as [[id [Hin Hwe]]|H]; auto. left. exists id. destruct Hin as [Hin|Hin]; auto.
+      inversion Hin; subst. apply waiting_on_iff in Hwe. congruence.
+Qed.
+
+Lemma fold_broken_retry_status x : retryable x = true -> forall ws m e y,
+  nth_error (execs m) e = Some y ->
+  exists y', nth_error (execs (fold_left (wake_broken x) ws m)) e = Some y' /\ est y' = est y.
+Proof.
+  intros Hx. induction ws as [|[id0 e0] ws IH]; intros m e y Hy; simpl; eauto.
+  unfold wake_broken at 2. simpl. rewrite Hx. destruct (waiting_on m e0 id0); eauto.
+  unfold send. destruct (nth_error (execs m) e0) as [x0|] eqn:E0; eauto.
+  assert (Hn : exists y1, nth_error (update e0 (fun x1 => mkexec (eprog x1) GetResult (Some (next_id m)) (est x1)) (execs m)) e = Some y1
+                          /\ est y1 = est y).
+  { rewrite nth_error_update. destruct (e0 =? e); [rewrite Hy; simpl; eauto|eauto]. }
+  destruct Hn as [y1 [Hy1 He1]].
+  match goal with |- context [fold_left _ ws ?M] => destruct (IH M e y1) as [y' [A B]] end.
+  - msimpl. exact Hy1.
+  - exists y'. split; auto. congruence.
+Qed.
+
+(* D7 (manager): a non-retryable stream failure surfaces at every execution that was waiting, as that very failure;
+   after a retryable one every such execution is still running, subscribed, with a request on the new stream *)
+Theorem break_surfaces_m : forall pp pj fl evs x e,
+  retryable x = false -> running (mrun pp pj fl evs) e ->
+  exists y, nth_error (execs (mrun pp pj fl (evs ++ [Break x]))) e = Some y /\ est y = Finished (ORaisedExn x).
+Proof.
+  intros pp pj fl evs x e Hx Hr. rewrite mrun_snoc.
+  destruct (W_mrun pp pj fl evs) as [H1 H2 H3 H4]. destruct (H4 e Hr) as [id Hw]. destruct (H3 e id Hw) as [[A _]|[]].
+  unfold mstep. apply fold_broken_fatal; auto. left. exists id. split; auto.
+Qed.
+
+Theorem break_retries_m : forall pp pj fl evs x e,
+  retryable x = true -> running (mrun pp pj fl evs) e ->
+  let m' := mrun pp pj fl (evs ++ [Break x]) in
+  running m' e /\ exists id, waits m' e id /\ In (id, e) (subs m') /\ In id (live_ids m').
+Proof.
+  intros pp pj fl evs x e Hx [y [Hy Hr]] m'.
+  assert (Hrun : running m' e).
+  { unfold m'. rewrite mrun_snoc. unfold mstep.
+    destruct (fold_broken_retry_status x Hx (subs (set_clock (S (clock (mrun pp pj fl evs))) (mrun pp pj fl evs)))
+               (drop_stream (set_clock (S (clock (mrun pp pj fl evs))) (mrun pp pj fl evs))) e y Hy) as [y' [A B]].
+    exists y'. split; auto. congruence. }
+  split; auto.
+  destruct (no_lost_request pp pj fl (evs ++ [Break x])) as [_ H]. destruct (H e Hrun) as [id [Hw [Hs [Hl|Hp]]]].
+  - exists id. auto.
+  - exfalso. unfold m' in *. clear -Hp. rewrite mrun_snoc in Hp. unfold mstep in Hp.
+    assert (Hnil : forall ws m, pending m = [] -> pending (fold_left (wake_broken x) ws m) = []).
+    { induction ws as [|s ws IH]; intros m Hm; simpl; auto. apply IH. unfold wake_broken.
+      destruct (waiting_on m (snd s) (fst s)); auto. destruct (retryable x); auto.
+      unfold send. destruct (nth_error (execs m) (snd s)); auto. }
+    rewrite Hnil in Hp; auto.
+Qed.
+
+(* D5b: a response with message id i is handed to the execution subscribed under i and changes no other execution *)
+Lemma on_payload_other e p m e' : e' <> e -> nth_error (execs (on_payload e p m)) e' = nth_error (execs m) e'.
+Proof.
+  intros Hne. assert (E : (e =? e') = false) by (apply Nat.eqb_neq; auto).
+  unfold on_payload. destruct p as [r|c].
+  - msimpl. rewrite nth_error_update, E. reflexivity.
+  - destruct (nth_error (execs m) e) as [x|] eqn:Ex; auto. destruct (retry c (ecur x)).
+    + unfold send. rewrite Ex. msimpl. rewrite nth_error_update, E. reflexivity.
+    + msimpl. rewrite nth_error_update, E. reflexivity.
+Qed.
+
+Theorem demux_routes : forall m k e',
+  match take_nth k (pending m) with
+  | Some ((id, _), _) => lookup id (subs m) <> Some e'
+  | None => True
+  end ->
+  nth_error (execs (mstep m (Respond k))) e' = nth_error (execs m) e'.
+Proof.
+  intros m k e' H. unfold mstep. msimpl.
+  destruct (take_nth k (pending m)) as [[[id p] rest]|]; auto. msimpl.
+  destruct (lookup id (subs m)) as [e|] eqn:El; auto.
+  destruct (waiting_on _ e id); auto.
+  rewrite on_payload_other; auto; congruence.
+Qed.
